@@ -57,7 +57,7 @@ class Module:
             self.canon_stats = canon.canonicalise(self.tree, self.name)
             if os.environ.get("VERIF_NO_NORMALISE") != "1":
                 from . import normalise
-                self.normalisation = normalise.normalise(self.tree, rel, self.name)
+                self.normalisation = normalise.normalise(self.tree, rel, self.name, self.digest)
         self.funcs = {}      # qname -> Func
         self.classes = {}    # name -> ClassDef
         self.parents = {}    # id(node) -> parent node
